@@ -72,7 +72,7 @@ func runC12(args []string) error {
 	distinct := distinctSet{}
 	nMini, nRich, nSnip, nMulti := 5, 5, 9, 20
 	if *tier == "thorough" {
-		nMini, nRich, nSnip, nMulti = 60, 70, 12, 300
+		nMini, nRich, nSnip, nMulti = 120, 150, 12, 500
 	}
 	id := 0
 	newID := func(input any) int {
@@ -102,12 +102,18 @@ func runC12(args []string) error {
 			defs, cases = nil, nil
 			return write(fmt.Sprintf("cases_mini_%d.v", k), body)
 		}
-		for pi := 0; pi < nMini; pi++ {
-			p := c12MiniProgram(rm.fork())
+		wits := c12Witnesses()
+		for pi := -len(wits); pi < nMini; pi++ {
+			var p *mprog
+			if pi < 0 {
+				p = wits[pi+len(wits)].Orig
+			} else {
+				p = c12MiniProgram(rm.fork())
+			}
 			src := p.Go()
 			ck, err := c12TypeCheck(src, false)
 			refOK := err == nil && len(ck.Errs) == 0
-			o := c12EvalInProcess(src, false, nil, 10*time.Second)
+			o := c12EvalInProcess(src, false, nil, 90*time.Second)
 			sm.Evaluations++
 			sm.RefComparisons++
 			sm.ImplComparisons++
@@ -121,15 +127,24 @@ func runC12(args []string) error {
 				// the generator is wrong (not a finding) or yaegi rejects / fails a well-typed program
 				sm.RefMismatches = append(sm.RefMismatches, refMismatch{ID: cid, Region: "", Input: src, Impl: o, Ref: map[string]any{"accepted": refOK}, Note: "unmutated MiniGo program"})
 			}
-			defs = append(defs, fmt.Sprintf("Definition p%d : prog := %s.", pi, p.Coq()))
-			cases = append(cases, fmt.Sprintf("(%d%%N, p%d, None, %d%%N, %d%%N, %s)", cid, pi, p.hash(), oc, coqBool(refOK)))
+			pname := fmt.Sprintf("p%d", pi)
+			if pi < 0 {
+				pname = fmt.Sprintf("w%d", pi+len(wits))
+			}
+			defs = append(defs, fmt.Sprintf("Definition %s : prog := %s.", pname, p.Coq()))
+			cases = append(cases, fmt.Sprintf("(%d%%N, %s, None, %d%%N, %d%%N, %s)", cid, pname, p.hash(), oc, coqBool(refOK)))
 			if len(sm.Samples) < 1 {
 				sm.Samples = append(sm.Samples, map[string]any{"stream": "mini", "source": src})
 			}
 			var muts []mmutant
-			for _, m := range c12MiniMutants(p) {
-				if m.Fam != "" {
-					muts = append(muts, m)
+			if pi < 0 {
+				// the witnesses of the _refuted theorems of Props/C12.v, replayed on the implementation
+				muts = []mmutant{wits[pi+len(wits)].Mut}
+			} else {
+				for _, m := range c12MiniMutants(p) {
+					if m.Fam != "" {
+						muts = append(muts, m)
+					}
 				}
 			}
 			type mres struct {
@@ -175,9 +190,9 @@ func runC12(args []string) error {
 					}
 					sm.RefMismatches = append(sm.RefMismatches, refMismatch{ID: cid, Region: region, Input: in, Impl: rs[i].impl, Ref: map[string]any{"accepted": rs[i].refOK, "error": rs[i].ref}})
 				}
-				cases = append(cases, fmt.Sprintf("(%d%%N, p%d, Some (%s, %s), %d%%N, %d%%N, %s)", cid, pi, m.Mut, m.Site.Coq(), m.Prog.hash(), c12ClassCode(rs[i].impl.Class), coqBool(rs[i].refOK)))
+				cases = append(cases, fmt.Sprintf("(%d%%N, %s, Some (%s, %s), %d%%N, %d%%N, %s)", cid, pname, m.Mut, m.Site.Coq(), m.Prog.hash(), c12ClassCode(rs[i].impl.Class), coqBool(rs[i].refOK)))
 			}
-			if pi%2 == 1 || pi == nMini-1 {
+			if pi >= 0 && (pi%2 == 1 || pi == nMini-1) {
 				if err := flush(pi / 2); err != nil {
 					return err
 				}
@@ -209,7 +224,7 @@ func runC12(args []string) error {
 			}
 			ck, err := c12TypeCheck(p.Src, true)
 			useStd := strings.Contains(p.Src, "\"strings\"")
-			o := c12EvalInProcess(p.Src, useStd, nil, 20*time.Second)
+			o := c12EvalInProcess(p.Src, useStd, nil, 90*time.Second)
 			sm.Evaluations++
 			sm.RefComparisons++
 			sm.count("rich:original")
@@ -309,8 +324,13 @@ func runC12(args []string) error {
 	{
 		rq := r.fork()
 		var cases []string
-		for wi := 0; wi < nMulti; wi++ {
-			w := c12World(rq.fork())
+		for wi := -1; wi < nMulti; wi++ {
+			var w *c12world
+			if wi < 0 {
+				w = c12WitnessWorld() // w_refuted of Tc/Proofs.v
+			} else {
+				w = c12World(rq.fork())
+			}
 			obs, trace := w.eval()
 			refOK := w.refOK()
 			in := map[string]any{"stream": "multi", "files": w.files(), "broken": w.Broken}
@@ -337,7 +357,7 @@ func runC12(args []string) error {
 				code = 0
 			}
 			cases = append(cases, fmt.Sprintf("(%d%%N, %s, %s, %d%%N, %s)", cid, w.Coq(), natList(trace), code, coqBool(refOK)))
-			if wi == 0 {
+			if wi == -1 {
 				sm.Samples = append(sm.Samples, in)
 			}
 		}
@@ -456,7 +476,7 @@ func (w *c12world) eval() (c12Obs, []int) {
 	for i := 0; i < n-1; i++ {
 		mfs["src/"+w.name(i)+"/"+w.name(i)+".go"] = &fstest.MapFile{Data: []byte(w.source(i))}
 	}
-	o := c12EvalInProcess(w.source(n-1), false, mfs, 20*time.Second)
+	o := c12EvalInProcess(w.source(n-1), false, mfs, 90*time.Second)
 	var trace []int
 	for _, l := range strings.Split(o.Output, "\n") {
 		if strings.HasPrefix(l, "MARK ") {
@@ -489,4 +509,55 @@ func (w *c12world) Coq() string {
 		ps = append(ps, fmt.Sprintf("(mkpkg %s %s)", natList(pk.Imports), pk.Body.Coq()))
 	}
 	return "[" + strings.Join(ps, "; ") + "]"
+}
+
+// ---------------------------------------------------------------- witnesses of the _refuted theorems (Tc/Proofs.v)
+
+type c12witness struct {
+	Orig *mprog
+	Mut  mmutant
+}
+
+func c12ProgOf(main []*mstmt) *mprog {
+	return &mprog{Named: []mkind{kInt}, Funcs: []*mfunc{
+		{Results: []mty{tB(kString)}, Body: []*mstmt{{Tag: "Return", Es: []*mexpr{{Tag: "Str", N: 1}}}}},
+		{Results: []mty{tB(kInt)}, Body: []*mstmt{{Tag: "Return", Es: []*mexpr{{Tag: "Int", N: 1}}}}},
+		{Results: []mty{tB(kBool)}, Body: []*mstmt{{Tag: "Return", Es: []*mexpr{{Tag: "Bool", B: true}}}}},
+		{Body: main}}}
+}
+
+func c12Witnesses() []c12witness {
+	call := func(f int) *mexpr { return &mexpr{Tag: "Call", N: f} }
+	v := func(x int) *mexpr { return &mexpr{Tag: "Var", N: x} }
+	lit := func(n int) *mexpr { return &mexpr{Tag: "Int", N: n} }
+	def := func(x int, e *mexpr) *mstmt { return &mstmt{Tag: "Define", N: x, Es: []*mexpr{e}} }
+	pr := func(e *mexpr) *mstmt { return &mstmt{Tag: "Print", Es: []*mexpr{e}} }
+	bin := func(op string, a, b *mexpr) *mexpr { return &mexpr{Tag: "Bin", Op: op, Args: []*mexpr{a, b}} }
+	mk := func(orig, mut []*mstmt, coq, fam string, site msite) c12witness {
+		return c12witness{Orig: c12ProgOf(orig), Mut: mmutant{Name: "witness", Mut: coq, Fam: fam, Site: site, Prog: c12ProgOf(mut)}}
+	}
+	slit := &mexpr{Tag: "LLit", T: tL(kInt), Args: []*mexpr{lit(1), lit(2)}}
+	return []c12witness{
+		// C12_land_refuted
+		mk([]*mstmt{def(1, call(1)), def(2, call(1)), pr(bin("+", v(1), v(2)))},
+			[]*mstmt{def(1, call(1)), def(2, call(1)), pr(bin("&&", v(1), v(2)))}, "(MBinop BLand)", "mini-land", msite{3, []int{2}, 0, []int{}}),
+		// C12_const_cond_refuted
+		mk([]*mstmt{{Tag: "If", Es: []*mexpr{call(2)}}}, []*mstmt{{Tag: "If", Es: []*mexpr{lit(1)}}}, "(MSArg 0 RInt)", "mini-const-cond", msite{3, []int{0}, -1, nil}),
+		// C12_named_erasure_refuted
+		mk([]*mstmt{{Tag: "Var", N: 1, T: tN(0, kInt), Es: []*mexpr{lit(1)}}}, []*mstmt{{Tag: "Var", N: 1, T: tN(0, kInt), Es: []*mexpr{call(1)}}},
+			"(MSArg 0 (RCall 1))", "mini-named-erasure", msite{3, []int{0}, -1, nil}),
+		// C12_index_refuted
+		mk([]*mstmt{def(1, slit), pr(&mexpr{Tag: "Index", Args: []*mexpr{v(1), lit(0)}})},
+			[]*mstmt{def(1, slit.clone()), pr(&mexpr{Tag: "Index", Args: []*mexpr{call(1), lit(0)}})}, "(MArg 0 (RCall 1))", "mini-index-nonindexable", msite{3, []int{1}, 0, []int{}}),
+		// C12_rejects_side_condition_inhabited
+		mk([]*mstmt{def(1, call(1)), pr(&mexpr{Tag: "Un", Op: "-", Args: []*mexpr{v(1)}})},
+			[]*mstmt{def(1, call(1)), pr(&mexpr{Tag: "Un", Op: "!", Args: []*mexpr{v(1)}})}, "(MUnop UNot)", "ok", msite{3, []int{1}, 0, []int{}}),
+	}
+}
+
+// c12WitnessWorld: w_refuted = [dep_ok; main_bad] (main imports dep0 and assigns a string to an int).
+func c12WitnessWorld() *c12world {
+	dep := c12ProgOf([]*mstmt{{Tag: "Print", Es: []*mexpr{{Tag: "Int", N: 1}}}})
+	main := c12ProgOf([]*mstmt{{Tag: "Var", N: 1, T: tB(kInt), Es: []*mexpr{{Tag: "Str", N: 0}}}})
+	return &c12world{Pkgs: []c12pkg{{Body: dep}, {Imports: []int{0}, Body: main}}, Broken: 1}
 }
